@@ -748,6 +748,29 @@ theorem dc_commutator_fallback_sound (tol : Rat) (a b prior : List (List (Nat ×
   rw [hexact]
   exact dc_commutator_fallback_sound_ring Proofs.C03.fockInterp fock_CARRel Proofs.C07D.fock_ι_mul a b prior ha hb
 
+/-- **`commutator_def_ring` / `anticommutator_def_ring`**: for FermionOperators, in every ring interpretation
+of the ladder operators with multiplicative coefficients (no relations needed: the product loop only
+concatenates words), `commutator(A, B)` denotes `AB - BA` and `anticommutator(A, B)` denotes `AB + BA`
+(tolerance 0: nothing pruned by the in-place addition), for ALL operators. -/
+theorem commutator_def_ring {A : Type} [Ring A] (I : Proofs.C03.Interp A)
+    (hmul : ∀ x y, I.ι (x * y) = I.ι x * I.ι y) (a b : List (List (Nat × Nat) × GQ)) :
+    I.evalOp (commutator 0 .fermion a b) = I.evalOp a * I.evalOp b - I.evalOp b * I.evalOp a ∧
+    I.evalOp (anticommutator 0 .fermion a b) = I.evalOp a * I.evalOp b + I.evalOp b * I.evalOp a := by
+  refine ⟨Proofs.C07D.evalOp_commutator0 I hmul a b, ?_⟩
+  unfold anticommutator
+  rw [I.evalOp_iadd, Proofs.C07D.evalOp_mulOp I hmul, Proofs.C07D.evalOp_mulOp I hmul]
+
+/-- **the shortcut equals the generic path**: under the documented contract,
+`commutator_ordered_diagonal_coulomb_with_two_body_operator(A, B)` (any tolerance, no `prior_terms`) and
+`commutator(A, B)` (tolerance 0) denote the same element in every ring with the anticommutation
+relations — in particular the same operator on Fock space. -/
+theorem dc_commutator_eq_generic {A : Type} [Ring A] (I : Proofs.C03.Interp A) (h : CARRel I)
+    (hmul : ∀ x y, I.ι (x * y) = I.ι x * I.ι y) (tol : Rat) (a b : List (List (Nat × Nat) × GQ))
+    (ha : ∀ e ∈ a, ContractA e.1) (hb : ∀ e ∈ b, ContractB e.1) :
+    I.evalOp (dcCommutator tol a b []) = I.evalOp (commutator 0 .fermion a b) := by
+  rw [dc_commutator_sound_ring I h hmul tol a b [] ha hb, (commutator_def_ring I hmul a b).1]
+  simp
+
 /-! ### `trivially_double_commutes_dual_basis_using_term_info` -/
 
 /-- **`term_info_sound`, ring form.**  Let `α`, `β`, `α'` be grouped terms of the dual-basis Hamiltonian
